@@ -268,7 +268,9 @@ def parse_output(stdout, stderr, prop, rc=0):
     if crash is None and stats is None and rc == 78:
         m = re.search(r'SUMMARY: ThreadSanitizer: ([^\n]*)', stderr or '')
         msg = re.sub(r'0x[0-9a-f]+', 'ADDR', m.group(1)) if m else 'thread sanitizer report'
-        msg = re.sub(r'^(data race) \S+ in ', r'\1 in ', msg)
+        msg = re.sub(r'\([^)]*\)', '', msg)  # module paths, build ids
+        msg = re.sub(r'^(data race) \S+ in ', r'\1 in ', msg).strip()
+        msg = re.sub(r'\s+', ' ', msg)
         crash = {'run': last_started, 'step': '?', 'op': 'c19', 'props': 'C19', 'class': 'crash:tsan-data-race',
                  'key': msg[:160], 'status': 'viol' if prop == 'C19' else 'blocked'}
     if crash is None and stats is None and rc == 77:
@@ -445,8 +447,15 @@ def gate(prop, cfg, flavour, binary, seed, rec, thorough, avoid, known, tier):
     envs = (env, env2) if differential(prop) else (env, 0)
     r1 = exec_plan(binary, prop, plan, envs[0], envs[1], avoid, known)
     r2 = exec_plan(binary, prop, plan, envs[0], envs[1], avoid, known)
+    varies = False
     if signature(r1) != sig or signature(r2) != sig or r1.get('hash') != r2.get('hash'):
-        return None, 'NOT-REPRODUCED expected %s got %s / %s' % (sig, signature(r1), signature(r2))
+        # Memory corruption of real value types (std::string, unique_ptr) manifests through the process's own malloc
+        # and may differ between processes; the run is still believed if every fresh execution violates the property.
+        if r1.get('status') == 'viol' and r2.get('status') == 'viol':
+            varies = signature(r1) != signature(r2)
+            sig = signature(r1)
+        else:
+            return None, 'NOT-REPRODUCED expected %s got %s / %s' % (sig, signature(r1), signature(r2))
     # C17: the violation must depend on an injected failure
     if prop == 'C17':
         r3 = exec_plan(binary, prop, strip_faults(plan), envs[0], envs[1], avoid, known)
@@ -459,11 +468,11 @@ def gate(prop, cfg, flavour, binary, seed, rec, thorough, avoid, known, tier):
     os.makedirs(rdir, exist_ok=True)
     path = os.path.join(rdir, '%s-%s-%s-%d-%d.json' % (prop, cfg['name'], flavour, seed, rec['run']))
     final = exec_plan(binary, prop, small, envs[0], envs[1], avoid, known)
-    if signature(final) != sig:
+    if signature(final) != sig and not (varies and final.get('status') == 'viol'):
         return None, 'NOT-REPRODUCED after minimisation'
     doc = {'kind': 'plan', 'property': prop, 'config': cfg, 'flavour': flavour, 'tier': tier, 'seed': seed,
            'run': rec['run'], 'env': envs[0], 'env2': envs[1], 'avoid': avoid, 'known': known, 'plan': small,
-           'original_steps': len(plan), 'minimiser_reruns': tries,
+           'original_steps': len(plan), 'minimiser_reruns': tries, 'manifestation_varies': varies,
            'expect': {'signature': sig, 'class': final.get('class'), 'op': final.get('op'), 'key': final.get('key'),
                       'props': final.get('props'), 'hash': final.get('hash')}}
     with open(path, 'w') as fh:
@@ -487,7 +496,7 @@ def replay_file(path, quiet=False):
         log('cannot build %s: %s' % (doc['config']['name'], diag))
         return 2, {}
     r = exec_plan(binary, prop, doc['plan'], doc['env'], doc.get('env2', 0), doc.get('avoid', []), doc.get('known', []))
-    if r.get('status') == 'viol' and signature(r) == doc['expect']['signature']:
+    if r.get('status') == 'viol' and (signature(r) == doc['expect']['signature'] or doc.get('manifestation_varies')):
         if not quiet:
             log('VIOLATION property=%s replay=%s' % (prop, path))
             log('  %s op=%s %s' % (r.get('class'), r.get('op'), r.get('key')))
